@@ -1441,3 +1441,12 @@ package anytype
 //@   assigns  tree
 //@   panics_if true
 //@   ensures  fluent: result == ego.ptr && ego.ptr == old(ego.ptr) [C19 C11]
+
+// ---------------------------------------------------------------------------
+// Not under contract (their callbacks mutate containers the callee's frame would have to name):
+// decided by the bounded oracles only; listed here so that the coverage obligation sees them.
+// ---------------------------------------------------------------------------
+//@ func native bounded [C13]
+//@ func (*list).NativeSlice bounded [C13]
+//@ func (*object).NativeDict bounded [C13]
+//@ func (*object).Merge bounded [C06 C09]
